@@ -187,6 +187,8 @@ Definition spec_step (K : nat) (s : spec) (o : op) (hint : res * list N) : optio
         if fail then Some (mkspec (live s) (mark_removed (snaps s) p) (size s), RErr, [])
         else Some (mkspec (live s) (drop_entry (snaps s) p) (size s), ROk, [])
       else Some (s, ROk, [])
+  | Unmap _ _ => None     (* what the live volume reads after a discard is not promised (it depends on the
+                             location table); the snapshots are: see c06u_step *)
   end.
 
 (** ** comparisons *)
@@ -362,6 +364,18 @@ Fixpoint step_oracle (k : obs -> op -> obs -> bool) (prev : obs) (ops : list op)
 
 Definition c11_oracle (c : cfg) (ops : list op) (os : list obs) : bool := step_oracle c11_step (obs0 c) ops os.
 
+(** ** C06 around a discard, on consecutive observations: an unmap leaves the chain, the attributes and the
+    image of every retained user-created snapshot as they were *)
+Definition c06u_step (prev : obs) (o : op) (cur : obs) : bool :=
+  match o with
+  | Unmap _ _ =>
+      listN_eqb (o_chain cur) (o_chain prev) && list_eqb attr_eqb (o_attr cur) (o_attr prev)
+      && users_kept prev 0%N (o_chain cur) (o_attr cur) (o_snaps cur)     (* 0 names the head: no snapshot is excluded *)
+      && users_kept cur 0%N (o_chain prev) (o_attr prev) (o_snaps prev)
+  | _ => true
+  end.
+Definition c06u_oracle (c : cfg) (ops : list op) (os : list obs) : bool := step_oracle c06u_step (obs0 c) ops os.
+
 (** ** C16 on observed traces *)
 Definition all_zero (l : list N) : bool := forallb (N.eqb 0) l.
 
@@ -471,7 +485,7 @@ Definition check_case_v (fx : bool) (c : case) : verdict :=
   let os := map (expand tbl) (c_obs c) in
   let ms := trace fx (cK g) (crev g) (init (cnb g) (cpunch g)) (all_applied (c_ops c)) in
   mkverdict (first_diff 0 (canon_all (c_ops c) ms) (canon_all (c_ops c) os))
-            (c01_oracle g (c_ops c) os) (c06_oracle g (c_ops c) os)
+            (c01_oracle g (c_ops c) os) (c06_oracle g (c_ops c) os && c06u_oracle g (c_ops c) os)
             (c11_oracle g (c_ops c) os) (c16_oracle g (c_ops c) os).
 
 Definition b2n (b : bool) : nat := if b then 1 else 0.
@@ -500,7 +514,7 @@ Definition bad_cases := bad_cases_v code_variant.
 Definition model_verdict (fx : bool) (c : case) : nat * nat * nat * nat :=
   let g := c_cfg c in
   let ms := trace fx (cK g) (crev g) (init (cnb g) (cpunch g)) (all_applied (c_ops c)) in
-  (b2n (c01_oracle g (c_ops c) ms), b2n (c06_oracle g (c_ops c) ms),
+  (b2n (c01_oracle g (c_ops c) ms), b2n (c06_oracle g (c_ops c) ms && c06u_oracle g (c_ops c) ms),
    b2n (c11_oracle g (c_ops c) ms), b2n (c16_oracle g (c_ops c) ms)).
 
 (** ** coverage predicates, evaluated on the model *)
@@ -511,7 +525,8 @@ Definition model_verdict (fx : bool) (c : case) : nat * nat * nat * nat :=
     512 a protected member was refused  1024 the candidate list was non-empty
     2048 a read under an injected fault failed although the request spans blocks of at least two files
     4096 a read under an injected fault succeeded on a chain of at least two files (no block served from the broken file)
-    8192 a cleaner pass merged and removed a snapshot  16384 a cleaner pass whose merge failed kept the snapshot *)
+    8192 a cleaner pass merged and removed a snapshot  16384 a cleaner pass whose merge failed kept the snapshot
+    32768 an unmap was executed while a user-created snapshot is protected (SnapIndx >= 1) *)
 Fixpoint distinct_targets (d : dd) (cnt b : nat) (first : nat) : bool :=
   match cnt with
   | 0 => false
@@ -566,7 +581,8 @@ Definition step_flags (fx : bool) (K : nat) (d : dd) (o : op) (d1 : dd) (x : out
     | ReadFault off len i => negb (nblk d * K <? off + len) && res_eqb (ores x) ROk && (2 <=? nf d) && negb (i =? 0) && (i <=? nf d)
     | _ => false end;
     match o with Clean _ _ _ => nf d1 <? nf d | _ => false end;
-    match o with Clean _ _ _ => res_eqb (ores x) RErr | _ => false end ].
+    match o with Clean _ _ _ => res_eqb (ores x) RErr | _ => false end;
+    match o with Unmap _ _ => res_eqb (ores x) ROk && (1 <=? snapix d) | _ => false end ].
 
 Fixpoint orl (a b : list bool) : list bool :=
   match a, b with
@@ -591,9 +607,11 @@ Fixpoint bits (l : list bool) (w : nat) : nat :=
   | b :: r => (if b then w else 0) + bits r (2 * w)
   end.
 
-Definition case_flags_v (fx : bool) (c : case) : nat :=
+(** (bits of the first 12 flags, bits of the others): unary numbers stay small *)
+Definition case_flags_v (fx : bool) (c : case) : nat * nat :=
   let g := c_cfg c in
-  bits (flags_run fx (cK g) (crev g) (init (cnb g) (cpunch g)) (c_ops c) []) 1.
+  let l := flags_run fx (cK g) (crev g) (init (cnb g) (cpunch g)) (c_ops c) [] in
+  (bits (firstn 12 l) 1, bits (skipn 12 l) 1).
 
-Definition coverage_v (fx : bool) (cs : list case) : list nat := map (case_flags_v fx) cs.
+Definition coverage_v (fx : bool) (cs : list case) : list (nat * nat) := map (case_flags_v fx) cs.
 Definition coverage := coverage_v code_variant.
